@@ -61,9 +61,15 @@ def draw_mask(draw, width, maxbits=None):
     if maxbits is None:
         maxbits = width
     maxbits = min(maxbits, width)
-    kind = draw(st.integers(0, 9))
+    kind = draw(st.integers(0, 10))
     if maxbits == 0 or kind == 0:
         return 0
+    if kind == 10:
+        # an unbroken run of IDs from 1 (or up to the last ID): exactly the first k satellites / signals - k being the
+        # number a constellation defines (10, 14, 24, 39, 52, 63), a power of two, or anything
+        k = min(maxbits, draw(st.one_of(st.sampled_from([10, 14, 24, 32, 39, 52, 63, 64, 8, 16]), st.integers(1, width))))
+        run = ((1 << k) - 1) << (width - k)
+        return run if draw(st.integers(0, 3)) else (1 << k) - 1
     if kind == 1:  # single bit, edge biased
         b = draw(st.one_of(st.sampled_from([0, width - 1]), st.integers(0, width - 1)))
         return 1 << b
